@@ -201,3 +201,24 @@ func factsIn(p *core.Prog, c *core.PrunedCFG, b *ssa.BasicBlock) []core.Fact {
 	}
 	return out
 }
+
+// innerRef / outerRef: the expression is the accepted inner hello (the outer
+// hello) of the connection: the Conn field, or - inside NewConn, which stores
+// those fields once from the handler's results - the handler's result itself.
+func (m *echModel) innerRef(e *core.Expr) bool {
+	return e.Op == "field" && e.Obj == m.fConn["inner"] || e.Op == "ext" && e.Name == "#1" && len(e.Args) == 1 && e.Args[0].Op == "call" && e.Args[0].Fn == m.handle
+}
+
+func (m *echModel) outerRef(e *core.Expr) bool {
+	return e.Op == "field" && e.Obj == m.fConn["outer"] || e.Op == "ext" && e.Name == "#0" && len(e.Args) == 1 && e.Args[0].Op == "call" && e.Args[0].Fn == m.handle
+}
+
+// innerFact: some fact compares the inner hello with nil using op.
+func (m *echModel) innerFact(fs []core.Fact, op string) bool {
+	for _, f := range fs {
+		if f.Op == op && f.R != nil && f.R.Name == "nil" && m.innerRef(f.L) {
+			return true
+		}
+	}
+	return false
+}
